@@ -29,7 +29,9 @@ impl std::fmt::Debug for Jwk {
 }
 
 fn member<'a>(v: &'a Value, k: &str) -> Result<&'a str, String> {
-	v.get(k).and_then(|x| x.as_str()).ok_or_else(|| format!("jwk member {} missing or not a string", k))
+	v.get(k)
+		.and_then(|x| x.as_str())
+		.ok_or_else(|| format!("jwk member {} missing or not a string", k))
 }
 
 pub fn parse_jwk(v: &Value) -> Result<Jwk, String> {
@@ -94,7 +96,7 @@ pub fn parse_jwk(v: &Value) -> Result<Jwk, String> {
 			let bx = BigNum::from_slice(&x).map_err(|e| e.to_string())?;
 			let by = BigNum::from_slice(&y).map_err(|e| e.to_string())?;
 			let key = EcKey::from_public_key_affine_coordinates(&group, &bx, &by)
-			.map_err(|e| format!("point not on curve: {}", e))?;
+				.map_err(|e| format!("point not on curve: {}", e))?;
 			key.check_key().map_err(|e| e.to_string())?;
 			let pkey = PKey::from_ec_key(key).map_err(|e| e.to_string())?;
 			let canonical = format!(
@@ -166,9 +168,14 @@ pub fn verify(alg: &str, key: &Jwk, input: &[u8], sig: &[u8]) -> SigInfo {
 		"RSA2048" | "RSA4096" => {
 			let want = if key.kind == "RSA2048" { 256 } else { 512 };
 			if sig.len() != want {
-				return Err(format!("RSA signature must be {} octets, got {}", want, sig.len()));
+				return Err(format!(
+					"RSA signature must be {} octets, got {}",
+					want,
+					sig.len()
+				));
 			}
-			let mut v = Verifier::new(MessageDigest::sha256(), &key.pkey).map_err(|e| e.to_string())?;
+			let mut v =
+				Verifier::new(MessageDigest::sha256(), &key.pkey).map_err(|e| e.to_string())?;
 			v.update(input).map_err(|e| e.to_string())?;
 			v.verify(sig).map_err(|e| e.to_string())
 		}
@@ -197,7 +204,11 @@ pub fn verify(alg: &str, key: &Jwk, input: &[u8], sig: &[u8]) -> SigInfo {
 		"Ed25519" | "Ed448" => {
 			let want = if key.kind == "Ed25519" { 64 } else { 114 };
 			if sig.len() != want {
-				return Err(format!("EdDSA signature must be {} octets, got {}", want, sig.len()));
+				return Err(format!(
+					"EdDSA signature must be {} octets, got {}",
+					want,
+					sig.len()
+				));
 			}
 			let mut v = Verifier::new_without_digest(&key.pkey).map_err(|e| e.to_string())?;
 			v.verify_oneshot(sig, input).map_err(|e| e.to_string())
@@ -266,13 +277,17 @@ pub fn parse_jws(v: &Value) -> Result<Jws, String> {
 		}
 	}
 	let g = |k: &str| -> Result<String, String> {
-		obj.get(k).and_then(|x| x.as_str()).map(|s| s.to_string()).ok_or_else(|| format!("JWS member {} missing", k))
+		obj.get(k)
+			.and_then(|x| x.as_str())
+			.map(|s| s.to_string())
+			.ok_or_else(|| format!("JWS member {} missing", k))
 	};
 	let protected_b64 = g("protected")?;
 	let payload_b64 = g("payload")?;
 	let sig_b64 = g("signature")?;
 	let header_raw = b64u_decode(&protected_b64).map_err(|e| format!("protected: {}", e))?;
-	let header: Value = serde_json::from_slice(&header_raw).map_err(|e| format!("protected header: {}", e))?;
+	let header: Value =
+		serde_json::from_slice(&header_raw).map_err(|e| format!("protected header: {}", e))?;
 	if !header.is_object() {
 		return Err("protected header is not an object".into());
 	}
@@ -294,10 +309,15 @@ pub fn selftest() -> Result<(), String> {
 	let jwk: Value = serde_json::from_str(r#"{"kty":"EC","crv":"P-256","x":"f83OJ3D2xF1Bg8vub9tLe1gHMzV76e8Tus9uPHvRVEU","y":"x_FEzRu9m36HLN_tue659LNpXW6pCyStikYjKIWI5a0"}"#).unwrap();
 	let k = parse_jwk(&jwk)?;
 	let input = b"eyJhbGciOiJFUzI1NiJ9.eyJpc3MiOiJqb2UiLA0KICJleHAiOjEzMDA4MTkzODAsDQogImh0dHA6Ly9leGFtcGxlLmNvbS9pc19yb290Ijp0cnVlfQ";
-	let sig = b64u_decode("DtEhU3ljbEg8L38VWAfUAqOyKAM6-Xx-F4GawxaepmXFCgfTjDxw5djxLa8ISlSApmWQxfKTUJqPP3-Kg6NU1Q")?;
+	let sig = b64u_decode(
+		"DtEhU3ljbEg8L38VWAfUAqOyKAM6-Xx-F4GawxaepmXFCgfTjDxw5djxLa8ISlSApmWQxfKTUJqPP3-Kg6NU1Q",
+	)?;
 	let r = verify("ES256", &k, input, &sig);
 	if !r.ok {
-		return Err(format!("RFC 7515 A.3 ES256 vector rejected: {:?}", r.problem));
+		return Err(format!(
+			"RFC 7515 A.3 ES256 vector rejected: {:?}",
+			r.problem
+		));
 	}
 	let mut bad = sig.clone();
 	bad[5] ^= 1;
@@ -305,16 +325,24 @@ pub fn selftest() -> Result<(), String> {
 		return Err("ES256 verifier accepts a corrupted signature".into());
 	}
 	// RFC 8037 A.4 (Ed25519)
-	let jwk: Value = serde_json::from_str(r#"{"kty":"OKP","crv":"Ed25519","x":"11qYAYKxCrfVS_7TyWQHOg7hcvPapiMlrwIaaPcHURo"}"#).unwrap();
+	let jwk: Value = serde_json::from_str(
+		r#"{"kty":"OKP","crv":"Ed25519","x":"11qYAYKxCrfVS_7TyWQHOg7hcvPapiMlrwIaaPcHURo"}"#,
+	)
+	.unwrap();
 	let k = parse_jwk(&jwk)?;
 	if k.thumb != "kPrK_qmxVWaYVA9wwBF6Iuo3vVzz7TxHCTwXBygrS4k" {
 		return Err(format!("RFC 8037 A.3 thumbprint mismatch: {}", k.thumb));
 	}
 	let input = b"eyJhbGciOiJFZERTQSJ9.RXhhbXBsZSBvZiBFZDI1NTE5IHNpZ25pbmc";
-	let sig = b64u_decode("hgyY0il_MGCjP0JzlnLWG1PPOt7-09PGcvMg3AIbQR6dWbhijcNR4ki4iylGjg5BhVsPt9g7sVvpAr_MuM0KAg")?;
+	let sig = b64u_decode(
+		"hgyY0il_MGCjP0JzlnLWG1PPOt7-09PGcvMg3AIbQR6dWbhijcNR4ki4iylGjg5BhVsPt9g7sVvpAr_MuM0KAg",
+	)?;
 	let r = verify("EdDSA", &k, input, &sig);
 	if !r.ok {
-		return Err(format!("RFC 8037 A.4 Ed25519 vector rejected: {:?}", r.problem));
+		return Err(format!(
+			"RFC 8037 A.4 Ed25519 vector rejected: {:?}",
+			r.problem
+		));
 	}
 	// RFC 7515 A.2 (RS256)
 	let jwk: Value = serde_json::from_str(r#"{"kty":"RSA","n":"ofgWCuLjybRlzo0tZWJjNiuSfb4p4fAkd_wWJcyQoTbji9k0l8W26mPddxHmfHQp-Vaw-4qPCJrcS2mJPMEzP1Pt0Bm4d4QlL-yRT-SFd2lZS-pCgNMsD1W_YpRPEwOWvG6b32690r2jZ47soMZo9wGzjb_7OMg0LOL-bSf63kpaSHSXndS5z5rexMdbBYUsLA9e-KXBdQOS-UTo7WTBEMa2R2CapHg665xsmtdVMTBQY4uDZlxvb3qCo5ZwKh9kG4LT6_I5IhlJH7aGhyxXFvUK-DWNmoudF8NAco9_h9iaGNj8q2ethFkMLs91kzk2PAcDTW9gb54h4FRWyuXpoQ","e":"AQAB"}"#).unwrap();
@@ -323,7 +351,10 @@ pub fn selftest() -> Result<(), String> {
 	let sig = b64u_decode("cC4hiUPoj9Eetdgtv3hF80EGrhuB__dzERat0XF9g2VtQgr9PJbu3XOiZj5RZmh7AAuHIm4Bh-0Qc_lF5YKt_O8W2Fp5jujGbds9uJdbF9CUAr7t1dnZcAcQjbKBYNX4BAynRFdiuB--f_nZLgrnbyTyWzO75vRK5h6xBArLIARNPvkSjtQBMHlb1L07Qe7K0GarZRmB_eSN9383LcOLn6_dO--xi12jzDwusC-eOkHWEsqtFZESc6BfI7noOPqvhJ1phCnvWh6IeYI2w9QOYEUipUTI8np6LbgGY9Fs98rqVt5AXLIhWkWywlVmtVrBp0igcN_IoypGlUPQGe77Rw")?;
 	let r = verify("RS256", &k, input, &sig);
 	if !r.ok {
-		return Err(format!("RFC 7515 A.2 RS256 vector rejected: {:?}", r.problem));
+		return Err(format!(
+			"RFC 7515 A.2 RS256 vector rejected: {:?}",
+			r.problem
+		));
 	}
 	// base64url strictness
 	if b64u_decode("AA==").is_ok() || b64u_decode("A+").is_ok() || b64u_decode("AB").is_ok() {
@@ -340,7 +371,9 @@ pub fn jwk_of_private(k: &openssl::pkey::PKeyRef<openssl::pkey::Private>) -> Res
 	match k.id() {
 		Id::RSA => {
 			let r = k.rsa().map_err(e)?;
-			Ok(serde_json::json!({"kty": "RSA", "n": b64u(&r.n().to_vec()), "e": b64u(&r.e().to_vec())}))
+			Ok(
+				serde_json::json!({"kty": "RSA", "n": b64u(&r.n().to_vec()), "e": b64u(&r.e().to_vec())}),
+			)
 		}
 		Id::EC => {
 			let ec = k.ec_key().map_err(e)?;
@@ -353,12 +386,18 @@ pub fn jwk_of_private(k: &openssl::pkey::PKeyRef<openssl::pkey::Private>) -> Res
 			let mut ctx = BigNumContext::new().map_err(e)?;
 			let mut x = BigNum::new().map_err(e)?;
 			let mut y = BigNum::new().map_err(e)?;
-			ec.public_key().affine_coordinates(ec.group(), &mut x, &mut y, &mut ctx).map_err(e)?;
+			ec.public_key()
+				.affine_coordinates(ec.group(), &mut x, &mut y, &mut ctx)
+				.map_err(e)?;
 			Ok(serde_json::json!({"kty": "EC", "crv": crv,
 				"x": b64u(&x.to_vec_padded(size).map_err(e)?), "y": b64u(&y.to_vec_padded(size).map_err(e)?)}))
 		}
-		Id::ED25519 => Ok(serde_json::json!({"kty": "OKP", "crv": "Ed25519", "x": b64u(&k.raw_public_key().map_err(e)?)})),
-		Id::ED448 => Ok(serde_json::json!({"kty": "OKP", "crv": "Ed448", "x": b64u(&k.raw_public_key().map_err(e)?)})),
+		Id::ED25519 => Ok(
+			serde_json::json!({"kty": "OKP", "crv": "Ed25519", "x": b64u(&k.raw_public_key().map_err(e)?)}),
+		),
+		Id::ED448 => Ok(
+			serde_json::json!({"kty": "OKP", "crv": "Ed448", "x": b64u(&k.raw_public_key().map_err(e)?)}),
+		),
 		_ => Err("unsupported key".into()),
 	}
 }
